@@ -25,6 +25,7 @@ def build_registry():
     shapefn.install_axioms(reg)
     numeric.install_axioms(reg)
     polynomial.install_axioms(reg)
+    call.install_axioms(reg)
     from engine import textmodel
     textmodel.install(reg)
     for c in ALL_CONTRACTS.values():
@@ -136,14 +137,21 @@ PROPS = {
                 "caller designated for the d-th indeterminate by position or by name; plain array of shape poly.shape; TypeError "
                 "and nothing else for a name supplied twice or an unknown keyword. Enumerated: indeterminate tuples (q0,), (q0,q1) "
                 "and 10 ways of supplying the points. x**e is uninterpreted, so what is proved is binding, completeness of the term "
-                "sum, coefficient/exponent pairing, int() conversion of stored exponents and the shape. Array-valued points, "
-                "partial evaluation, polynomial substitution, staged evaluation and machine-number kinds: bounded run-time checks "
-                "(conc/checks_c02.py, exact oracle).",
+                "sum, coefficient/exponent pairing, int() conversion of stored exponents and the shape. Polynomial substitution is "
+                "proved as well, for scalar (0-d) polynomial arguments in every indeterminate (4 binding patterns, D <= 2): the "
+                "result - a polynomial, or the plain array tonumpy gives when it comes out constant - has the shape of poly and the "
+                "value  sum_t C(t,i) * prod_d a_d ** E(t,d)  in the polynomial ring (ghost sum over PV, loop invariant with the first "
+                "iteration peeled, through the value-level contracts of power, multiply, add, clean_attributes and "
+                "align_indeterminants, all proved from their source; numpoly.outer(array, 0-d polynomial).reshape is assumed). "
+                "Array-valued points/arguments, partial evaluation (some indeterminates left), staged evaluation and machine-number "
+                "kinds: bounded run-time checks (conc/checks_c02.py, exact oracle).",
                 trusted_base=COMMON_TRUSTED + ["numpy axioms: ones/zeros of shape (), scalar*array, outer+reshape for a 0-d second operand",
                                                "assumed shape-only contract of numpoly.polynomial(number)"],
                 assumptions=["A1 (reals; x**e uninterpreted)", "machine integer arithmetic outside int64 is out of scope (numpy semantics)",
-                             "D <= 2 and binding patterns enumerated"],
-                not_decided=["array-valued points, partial evaluation, polynomial substitution, staged evaluation (bounded)",
+                             "D <= 2 and binding patterns enumerated",
+                             "assumed: numpoly.outer(array, 0-d polynomial) reshaped to the array's shape multiplies element-wise; "
+                             "B10 (a constant polynomial denotes the constant tonumpy returns)"],
+                not_decided=["array-valued points and arguments, partial evaluation, staged evaluation (bounded)",
                              "independence of the numeric type carrying an argument (bounded)"]),
     "C04": dict(
         level="other",
